@@ -747,7 +747,7 @@ theorem new_no_panic (action : String) (path : List Bytes) (sel : Option Bytes) 
 open Rio.Html Rio.Html.Tokenizer in
 /-- `tokenizeGo` (Model/FilterHtml.lean) where `tag_name()` returning `None` on a start / end / self-closing tag token
 is a PANIC (`tag_name.unwrap()` in `filter` and `append_child`; `unwrap_or_default()` for start tags in `filter`). -/
-def tokenizeGoS : Nat → Tokenizer → List Tok → Option (List Tok × Bytes)
+def tokenizeGoS : Nat → Tokenizer → List Tok → Option (List Tok × Rio.Filter.Bytes)
   | 0, _, _ => none
   | n + 1, t, acc =>
     let t1 := t.next
@@ -808,7 +808,7 @@ theorem tag_name_unwrap_ok : ∀ (n : Nat) (t : Tokenizer) (acc : List Tok), Inv
             exact tag_name_unwrap_ok n (next t) _ hi1
 
 /-- on the level of the filters: the strict tokenisation of any buffer is `htmlTokenize?` -/
-theorem htmlTokenize_unwrap_ok (bs : Bytes) :
+theorem htmlTokenize_unwrap_ok (bs : Rio.Filter.Bytes) :
     tokenizeGoS (bs.length + 2) (Rio.Html.Tokenizer.new bs.toArray) [] = htmlTokenize? bs :=
   tag_name_unwrap_ok _ _ [] ⟨Nat.le_refl _, ⟨Nat.zero_le _, rfl, rfl, rfl⟩, Rio.Html.Tokenizer.TagOk_nil⟩
 
